@@ -17,12 +17,12 @@ ID = "C13"
 RULE = (
     "history = 2..8 operations: use(name) with 'numpy'/'casadi' (+sym_type) or a refused name (case variants, '', "
     "padded, unknown), use(instance) of a spy or of a real engine (incl. a second instance of the class already "
-    "selected), step() without engine, step(engine=X) for X a spy over NumPy/SX/MX or a real engine, on a valid "
+    "selected), step() without engine, step(engine=X) for X a spy over NumPy/SX/MX or a real engine, element-level init_vars()/step() of one element with the default or an explicit engine (after a full step of the same kind), on a valid "
     "growth-grammar network. Non-trivial = the history contains an explicit-engine step while an engine of a "
     "different kind (or a different instance) is selected. Distinct = SHA-1 of the case."
 )
-BUDGET = {"quick": {"examples": 150, "shards": 4}, "thorough": {"examples": 2000, "shards": 16}}
-EXPECTED_LABELS = ("use:name", "use:bad-name", "use:spy", "use:real", "use:same-class-instance", "step:default", "step:explicit",
+BUDGET = {"quick": {"examples": 150, "shards": 4}, "thorough": {"fuzz_runs": 3000, "examples": 2000, "shards": 16}}
+EXPECTED_LABELS = ("el:init", "el:step", "el:init+step", "el:default", "el:explicit", "use:name", "use:bad-name", "use:spy", "use:real", "use:same-class-instance", "step:default", "step:explicit",
                    "explicit-differs-from-selected", "pair:numpy/SX", "pair:SX/numpy", "pair:MX/numpy", "pair:numpy/MX", "pair:SX/MX",
                    "interior-ramp", "delta", "merge", "bifurcation", "dest:cong", "origin:main")
 ASSUMPTIONS = ["a spy delegates every primitive unchanged; engine-created variables are used for the steps"]
@@ -77,6 +77,8 @@ class Spy(EngineBase):
 def cases(draw):
     sp = draw(gen_nets.specs(max_ops=6, force_delta_phi=draw(st.booleans())))
     spies = [draw(st.sampled_from(KINDS)) for _ in range(3)]
+    if draw(st.booleans()):
+        spies = [spies[0]] * 3  # same kind: selections and explicit engines can be mixed at element level
     ops = []
     for _ in range(draw(st.integers(2, 8))):
         k = draw(st.integers(0, 9))
@@ -96,6 +98,10 @@ def cases(draw):
             ops.append(["step", ["spy", draw(st.integers(0, 2))]])
         else:
             ops.append(["step", ["real", draw(st.sampled_from(KINDS))]])
+        if draw(st.integers(0, 2)) == 0:
+            # element-level API on one element: init_vars / step with the default or an explicit spy engine
+            ops.append(["el", draw(st.sampled_from(["init", "step", "init+step"])), draw(st.integers(0, 30)),
+                        draw(st.one_of(st.none(), st.integers(0, 2)))])
     return {"spec": sp, "spies": spies, "ops": ops, "opts": draw(st.lists(st.sampled_from(S.OPT_NAMES), unique=True, max_size=2).map(sorted))}
 
 
@@ -144,6 +150,7 @@ def check_case(case, ctx):
     opts = S.opts_kwargs(case["opts"])
     model = engines.get_current_engine()  # the model of the selection: the object expected to be current
     model_kind = "SX"
+    state_kind = None  # kind of the quantities currently held by all elements (set by a full step)
     try:
         for k, op in enumerate(case["ops"]):
             what = f"op {k} {op}"
@@ -160,13 +167,17 @@ def check_case(case, ctx):
                     model, model_kind = r, exp_kind
                 else:
                     ctx.label("use:bad-name")
+                    outcome = None
                     try:
-                        r = engines.use(name)
-                        ctx.fail("bad-name:accepted", f"{what}: unknown engine name {name!r} was accepted and returned {r!r}")
+                        outcome = ("returned", engines.use(name))
                     except EngineNotFoundError:
                         pass
                     except Exception as e:
-                        ctx.fail(f"bad-name:wrong-error:{type(e).__name__}", f"{what}: unknown engine name {name!r} raised {type(e).__name__}: {e}")
+                        outcome = ("raised", e)
+                    if outcome and outcome[0] == "returned":
+                        ctx.fail("bad-name:accepted", f"{what}: unknown engine name {name!r} was accepted and returned {outcome[1]!r}")
+                    elif outcome:
+                        ctx.fail(f"bad-name:wrong-error:{type(outcome[1]).__name__}", f"{what}: unknown engine name {name!r} raised {type(outcome[1]).__name__}: {outcome[1]}")
             elif op[0] in ("use_spy", "use_real"):
                 if op[0] == "use_spy":
                     inst = spies[op[1]]
@@ -182,6 +193,39 @@ def check_case(case, ctx):
                 if r is not inst:
                     ctx.fail("use-instance:return", f"{what}: use(instance) returned {r!r}, not the instance given")
                 model, model_kind = inst, kind_of_engine(inst)
+            elif op[0] == "el":
+                # only meaningful when every element already holds quantities of one kind (after a full step)
+                X = model if op[3] is None else spies[op[3]]
+                xk = kind_of_engine(X)
+                stateful = [i for i in sorted(els) if els[i]._states]
+                if state_kind is None or xk != state_kind or not stateful:
+                    continue
+                queued = [j for j in stateful if j.startswith("O")]
+                pool = queued if (queued and op[2] % 2 == 0) else stateful
+                i = pool[(op[2] // 2) % len(pool)]
+                el = els[i]
+                ctx.label("el:" + op[1], "el:default" if op[3] is None else "el:explicit")
+                logs_before = [len(s.log) for s in spies]
+                kw = {} if op[3] is None else {"engine": X}
+
+                def run_el():
+                    if "init" in op[1]:
+                        el.init_vars(**kw)
+                    if "step" in op[1]:
+                        el.step(net=net, **kw, **opts, **pars)
+
+                r = guarded(ctx, f"element-{op[1]}:{model_kind}/{xk}", run_el)
+                if crashed(r):
+                    return
+                if X is not model:
+                    ctx.nontrivial = True
+                for j, s_ in enumerate(spies):
+                    new = s_.log[logs_before[j]:]
+                    if s_ is X:
+                        if not new:
+                            ctx.fail("element:engine-not-used", f"{what}: element-level {op[1]} of {i} did not use the {'selected' if op[3] is None else 'explicit'} engine")
+                    elif new:
+                        ctx.fail(f"element:other-engine-used:{new[0]}", f"{what}: element-level {op[1]} of {i} used spy{j} ({s_.kind}) instead of the {'selected' if op[3] is None else 'explicit'} engine {X!r}: {new[:5]}")
             else:
                 logs_before = [len(s.log) for s in spies]
                 if op[1] is None:
@@ -190,6 +234,7 @@ def check_case(case, ctx):
                     if crashed(r):
                         return
                     check_types(ctx, els, model_kind, what + f" with {model_kind} selected")
+                    state_kind = model_kind
                     for j, s in enumerate(spies):
                         grew = len(s.log) > logs_before[j]
                         if s is model and not grew:
@@ -210,6 +255,7 @@ def check_case(case, ctx):
                     if crashed(r):
                         return
                     check_types(ctx, els, xk, what + f" with {model_kind} selected")
+                    state_kind = xk
                     for j, s in enumerate(spies):
                         new = s.log[logs_before[j]:]
                         if s is X:
